@@ -73,7 +73,7 @@ type c04World struct {
 	conns    []*memConn
 	arrivals []c04Arrival
 	attempts map[int]int
-	dirty    []string // observations of a reused connection with unread bytes (diagnostic)
+	dirty    []string    // observations of a reused connection with unread bytes (diagnostic)
 	closedAt map[int]int // connection id → number of request arrivals seen when the client closed it
 }
 
@@ -222,18 +222,18 @@ func c04Class(err error) string {
 }
 
 type c04Call struct {
-	method             int
-	blen, mode, cut    int
-	reqClose           bool
-	entry              int // 0 Do, 1 DoTimeout, 2 DoDeadline
-	end                int // how the caller ends the call: 0 CloseBodyStream 1 ReleaseResponse 2 Reset 3 reuse of the Response
-	carried            bool
-	readK              int
-	tag                int
-	res                string
-	gotTag             string
-	gotBody            []byte
-	streamErr          error
+	method          int
+	blen, mode, cut int
+	reqClose        bool
+	entry           int // 0 Do, 1 DoTimeout, 2 DoDeadline
+	end             int // how the caller ends the call: 0 CloseBodyStream 1 ReleaseResponse 2 Reset 3 reuse of the Response
+	carried         bool
+	readK           int
+	tag             int
+	res             string
+	gotTag          string
+	gotBody         []byte
+	streamErr       error
 }
 
 // c04Decode turns 9 script bytes into a call (total, so that shrunk inputs stay valid).
@@ -552,7 +552,8 @@ func c04SameSet(a, b []string) bool {
 // PipelineClient
 
 // c04PipeServer answers in order; the request's query says how slowly.
-func c04PipeServe(c *memConn, mu *sync.Mutex, order *[]int) {
+func c04PipeServe(c *memConn, mu *sync.Mutex, order *[]int, held **memConn) {
+	closed := false
 	for {
 		r, err := c.srvReadRequest()
 		if err != nil {
@@ -562,6 +563,20 @@ func c04PipeServe(c *memConn, mu *sync.Mutex, order *[]int) {
 		mu.Lock()
 		*order = append(*order, tag)
 		mu.Unlock()
+		if closed {
+			continue // requests written after the server closed: never answered
+		}
+		if r.qInt("x", 0) == 1 {
+			// the server closes the connection instead of answering; the client's Close of it (the worker's reaction
+			// to the reader's failure) will be slow to start, so the old writer is still running for a while
+			c.holdCloseBefore()
+			mu.Lock()
+			*held = c
+			mu.Unlock()
+			closed = true
+			c.srvClose()
+			continue
+		}
 		if d := r.qInt("d", 0); d > 0 {
 			time.Sleep(time.Duration(d) * time.Second)
 		}
@@ -591,13 +606,17 @@ func c04Pipe(a [][]byte) *Case {
 	// the connection up (the late response must not be handed to a later request); 3 issues a second wave of
 	// requests after the late answers; 4: slow uploads — DoTimeout(3s) calls whose request body stream the harness holds
 	// back, released before or after the call's deadline (the deadline expires while the writer is inside w.req.Write),
-	// with further requests queued behind and issued afterwards. Modes 1..4 are judged by the monitor only.
-	mode := int(a[0][0]) % 5
+	// with further requests queued behind and issued afterwards; 5: the server closes the connection instead of
+	// answering some request and the client's Close of that connection is slow to start: the next calls are taken by the
+	// old connection's writer after its reader has gone; then the Close goes through, the client reconnects and the
+	// remaining calls follow. Modes 1..5 are judged by the monitor only.
+	mode := int(a[0][0]) % 6
 	timed := mode != 0
 	type pcall struct {
 		tag     int
 		method  int // 0 GET 1 POST 2 HEAD
 		entry   int // 0 Do, 1 DoTimeout, 2 DoDeadline
+		closer  int // 1: the server closes the connection instead of answering this request
 		delay   int
 		timeout time.Duration
 		done    bool
@@ -620,18 +639,25 @@ func c04Pipe(a [][]byte) *Case {
 			late  bool // … and after the call's deadline has passed
 		}
 		var held []*heldBody
+		var heldConn *memConn // mode 5: the connection whose Close is being held
+		closeAfter, nClosers := 0, 0
 		n := 0
 		pc.Dial = func(string) (net.Conn, error) {
 			n++
 			c := newMemConn(n)
-			go c04PipeServe(c, &mu, &order)
+			go c04PipeServe(c, &mu, &order, &heldConn)
 			return c, nil
 		}
 		for i := 0; i+1 < len(a[1]) && len(calls) < 12; i += 2 {
 			c := &pcall{tag: len(calls) + 1, method: int(a[1][i]) % 3, entry: int(a[1][i]/3) % 3, timeout: 1000 * time.Second}
-			if timed && mode != 4 {
+			if mode >= 1 && mode <= 3 {
 				c.delay = []int{0, 0, 2, 8}[int(a[1][i+1])%4]
 				c.timeout = []time.Duration{1000 * time.Second, 5 * time.Second, 3 * time.Second}[int(a[1][i+1]/4)%3]
+			}
+			if f := int(a[1][i+1]); mode == 5 && f%4 == 0 && nClosers < 2 && heldConn == nil {
+				c.closer = 1
+				nClosers++
+				closeAfter = 1 + (f/4)%3 // the Close is let go after that many further calls
 			}
 			var upload *gatedBody
 			if f := int(a[1][i+1]); mode == 4 && f%3 == 0 {
@@ -651,7 +677,7 @@ func c04Pipe(a [][]byte) *Case {
 				}()
 				req := fasthttp.AcquireRequest()
 				resp := fasthttp.AcquireResponse()
-				req.SetRequestURI(fmt.Sprintf("http://p04.test/p?t=%d&d=%d", c.tag, c.delay))
+				req.SetRequestURI(fmt.Sprintf("http://p04.test/p?t=%d&d=%d&x=%d", c.tag, c.delay, c.closer))
 				req.Header.SetMethod([]string{"GET", "POST", "HEAD"}[c.method])
 				if upload != nil {
 					req.SetBodyStream(upload, 1)
@@ -679,6 +705,19 @@ func c04Pipe(a [][]byte) *Case {
 			if mode == 3 && i+1 == (len(a[1])/4)*2 {
 				advance(12 * time.Second) // second wave: issued after the late answers of the first
 			}
+			mu.Lock()
+			hcn := heldConn
+			mu.Unlock()
+			if hcn != nil && c.closer == 0 {
+				closeAfter--
+				if closeAfter <= 0 {
+					hcn.releaseClose()
+					mu.Lock()
+					heldConn = nil
+					mu.Unlock()
+					settle()
+				}
+			}
 			for k := 0; k < len(held); {
 				h := held[k]
 				if h.b == upload {
@@ -705,7 +744,15 @@ func c04Pipe(a [][]byte) *Case {
 			close(h.b.gate)
 			settle()
 		}
-		if mode == 4 {
+		mu.Lock()
+		hcn := heldConn
+		heldConn = nil
+		mu.Unlock()
+		if hcn != nil {
+			hcn.releaseClose()
+			settle()
+		}
+		if mode == 4 || mode == 5 {
 			// one more request behind everything: it also flushes a batch the writer left in its buffer because the
 			// last item of the batch was deadline-expired work (client.go writer: the `continue` skips the flush arming)
 			c := &pcall{tag: len(calls) + 1, timeout: 1000 * time.Second}
@@ -887,7 +934,7 @@ func init() {
 		ID: "C04",
 		Rule: "host: 2..10 sequential tagged calls on a HostClient (GET/POST/HEAD/PUT x body 0..5000 x server: full keep-alive | full close | cut inside head | cut after k body bytes | stall inside head | stall after k body bytes (tail arrives later) " +
 			"x request Connection: close x streamed body read for 0|1|half|k|all bytes and then ended by CloseBodyStream | ReleaseResponse | Reset | reusing the same Response for the next call), StreamResponseBody with MaxResponseBodySize 0|64|200, LIFO/FIFO; " +
-			"every call goes through one of the three entry points Do / DoTimeout / DoDeadline (Do only where the scripted server answers completely); pipe: 2..12 pipelined GET/POST/HEAD requests written in issue order, answered in order, with and without slow answers, call timeouts and a PipelineClient.ReadTimeout shorter than the slowest answers (late responses), optionally a second wave of requests after the late answers, or slow uploads (request body streams held back past the call's deadline while the writer is inside the request write, further requests behind them); " +
+			"every call goes through one of the three entry points Do / DoTimeout / DoDeadline (Do only where the scripted server answers completely); pipe: 2..12 pipelined GET/POST/HEAD requests written in issue order, answered in order, with and without slow answers, call timeouts and a PipelineClient.ReadTimeout shorter than the slowest answers (late responses), optionally a second wave of requests after the late answers, or slow uploads (request body streams held back past the call's deadline while the writer is inside the request write, further requests behind them), or a server that closes the connection while the client's Close of it is slow to start (calls taken by the old writer after its reader has gone, then reconnect and further calls); " +
 			"conc: 3..6 concurrent callers on a Client over two hosts with the same scripts; " +
 			"bodies are made of tag-carrying well-formed responses written in record-aligned segments; non-trivial = at least 2 calls (4 for conc); distinct = distinct input",
 		Assumptions: []string{
@@ -924,7 +971,7 @@ func init() {
 				emit("host", cfg, script)
 			}
 			for i := 0; i < nPipe; i++ {
-				emit("pipe", []byte{byte(r.Intn(5))}, r.Bytes(2*(2+r.Intn(11)), nil))
+				emit("pipe", []byte{byte(r.Intn(6))}, r.Bytes(2*(2+r.Intn(11)), nil))
 			}
 			for i := 0; i < nConc; i++ {
 				emit("conc", []byte{byte(r.Intn(4)), byte(r.Intn(4))}, r.Bytes(4, nil))
